@@ -78,7 +78,7 @@ struct Init<'a> {
 fn observe(device: &Matter) -> String {
     let (w, f, m) = device.with_state(|st| st.verif_pase().verif_state());
     let sessions = device.with_state(|st| {
-        st.verif_sessions().iter().filter(|s| matches!(s.get_session_mode(), SessionMode::Pase { .. })).count()
+        st.verif_sessions_mut().iter().filter(|s| matches!(s.get_session_mode(), SessionMode::Pase { .. })).count()
     });
     let mut adv = 0;
     let _ = device.mdns_services(|s| {
